@@ -198,6 +198,93 @@ def sqrt_siblings(model, res):
     return len(seen)
 
 
+def sign_rule(model, res):
+    """R-SIGN / R-MONO on the canonical arms of get_amounts (rules/sign.py: exact sign of a rational form after
+    rewriting the atoms the guards order as a chain of non-negative gaps; exact partial derivative): in every arm both
+    amounts are >= 0; token0 is non-increasing and token1 non-decreasing in the price; both are proportional to the
+    liquidity; the arms agree at the range boundaries (so the monotonicity holds across arms).  A clause the argument
+    cannot settle is reported as not decided, never as a violation; a clause it settles the WRONG way is a finding."""
+    from ..norm import Rat
+    from ..rules.sign import Facts, derivative, nonneg, nonpos, sign_of, subst
+    from ..vn import Evaluator, Raise, Unreadable, simplify_under
+    f = model.func("uniswap.liquitidy_math.get_amounts")
+    try:
+        paths = Evaluator(model, opaque_funcs=["get_sqrt_ratio_at_tick"])._function_paths_ctx(f, {}, None, 0, None)
+    except Unreadable as e:
+        raise AnalysisError(f"C07: get_amounts is outside the evaluator's language ({e})")
+    pname, lname = f.params[0], f.params[3]
+    P, L = ("sym", pname), ("sym", lname)
+    arms = []
+    n = 0
+    undecided = []
+    for conds, val in paths:
+        if isinstance(val, Raise) or not hasattr(val, "items") or len(val.items) != 2:
+            continue
+        amts = [simplify_under(a, conds) for a in val.items]
+        arms.append((conds, amts))
+        for i, amt in enumerate(amts):
+            want_mono = nonpos if i == 0 else nonneg
+            checks = []
+            fa = Facts(); fa.add_guards(conds)
+            checks.append((f"amount{i} >= 0", sign_of(amt, fa, [L]), nonneg))
+            fa = Facts(); fa.add_guards(conds)
+            checks.append((f"amount{i} is {'non-increasing' if i == 0 else 'non-decreasing'} in the price",
+                           sign_of(derivative(amt, P), fa, [L]), want_mono))
+            for what, sg, good in checks:
+                if sg is None:
+                    undecided.append(what)
+                    continue
+                n += 1
+                ok = good(sg)
+                res.ob("R-SIGN", f"get_amounts arm {sorted(map(repr, conds))[0][:60]}...: {what} (sign {sg})", f.loc(), ok=ok)
+                if not ok:
+                    res.find("R-SIGN", f.qualname, f"{what} fails", f.loc(),
+                             f"get_amounts: in the arm guarded by {sorted(map(repr, conds))[:2]} the clause `{what}` is violated: the "
+                             f"exact sign of the canonical form under the arm's guards is `{sg}`")
+            if not amt.n.is_zero():
+                n += 1
+                lin = L not in (amt / Rat.atom(L)).atoms()
+                res.ob("R-SIGN", f"get_amounts: amount{i} is proportional to the liquidity", f.loc(), ok=lin)
+                if not lin:
+                    res.find("R-SIGN", f.qualname, f"amount{i} not proportional to liquidity", f.loc(),
+                             f"get_amounts: amount{i} / liquidity still depends on the liquidity")
+    # continuity across the arms: at P = lower bound (min atom) and P = upper bound (max atom) neighbouring arms agree
+    bounds = set()
+    for conds, amts in arms:
+        for a in amts:
+            for at in a.atoms():
+                if isinstance(at, tuple) and at and at[0] in ("min", "max"):
+                    bounds.add(at)
+    for b in sorted(bounds, key=repr):
+        vals = []
+        for conds, amts in arms:
+            # an arm is adjacent to the boundary when, with the price AT the boundary, none of its guards is violated in
+            # general (strict guards may be tight there: closure of the arm)
+            adjacent = True
+            for c in conds:
+                if getattr(c, "op", None) not in ("<", "<=") or not isinstance(c.x, Rat):
+                    continue
+                x = subst(c.x, {P: Rat.atom(b)})
+                if x.n.is_zero():
+                    continue
+                sg = sign_of(x, Facts(), [])
+                if sg in ("+", ">=0") or sg is None:
+                    adjacent = False
+            if adjacent:
+                vals.append(tuple(subst(a, {P: Rat.atom(b)}) for a in amts))
+        if len(vals) >= 2:
+            n += 1
+            same = all(all(x == y for x, y in zip(vals[0], v)) for v in vals[1:])
+            res.ob("R-SIGN", f"get_amounts: the arms agree at the boundary {b[0]}(sqrt ratios) ({len(vals)} arms)", f.loc(), ok=same)
+            if not same:
+                res.find("R-SIGN", f.qualname, f"arms disagree at the {b[0]} boundary", f.loc(),
+                         f"get_amounts: substituting price = {b[0]} bound into the adjacent arms gives different amounts: the amounts "
+                         f"jump at the range boundary (monotonicity / one-sidedness across the boundary is lost)")
+    if undecided:
+        res.notes.append("sign argument could not settle: " + "; ".join(sorted(set(undecided))))
+    return n
+
+
 def run(model, tier="quick"):
     res = Result("C07", EXPLANATION)
     res.rules = ["R-FORMULA", "R-SIB", "R-SIGN", "R-PAIR"]
@@ -215,7 +302,8 @@ def run(model, tier="quick"):
     effects_check(res, model, "UniLpMarket._add_liquidity_by_tick", REF_ADD,
                   "add: default price from the status price; wallet debited by the USED amounts; position keyed by the ticks", fx, opaque=oq)
     res.assumptions = ["get_sqrt_ratio_at_tick is TickMath (C06)"]
-    res.not_decided = ["maximality bound and monotonicity in price as inequalities over the domain (they follow from the closed forms)",
+    res.floor("sign_and_monotonicity_clauses", sign_rule(model, res), 14)
+    res.not_decided = ["maximality bound of the minted liquidity as an inequality over the domain (integer floors)",
                        "1e-30 relative agreement (Decimal precision)"]
     return res
 
